@@ -529,3 +529,66 @@ func c10CalleeFn(in ssa.Instruction) *ssa.Function {
 	}
 	return cc.StaticCallee()
 }
+
+// ---------------------------------------------------------------------------
+// value leaves through locals, phis and small same-module helpers
+
+// c10Leaf is one leaf producer of a value; Base maps a base-expression string
+// of the leaf (valid inside a helper) to the caller's expression string.
+type c10Leaf struct {
+	E    *Expr
+	Base func(string) string
+}
+
+// c10ValueLeaves walks e back through phis, local cells and conversions
+// (Origins) and, additionally, through calls to in-module functions with a
+// body: the leaves of such a call are the leaves of the callee's returned
+// values, with the callee's parameters renamed to the caller's arguments.
+func c10ValueLeaves(e *Expr, depth int) []c10Leaf {
+	id := func(s string) string { return s }
+	var out []c10Leaf
+	for _, l := range Origins(e, nil) {
+		l = strip(l)
+		if l == nil {
+			continue
+		}
+		call, idx := l, 0
+		if l.K == EExtract && l.X != nil {
+			call, idx = strip(l.X), l.Idx
+		}
+		if call != nil && call.K == ECall && call.SFn != nil && len(call.SFn.Blocks) > 0 && depth < 2 &&
+			call.Fn != nil && call.Fn.Pkg() != nil && (call.Fn.Pkg().Path() == modPath || len(call.Fn.Pkg().Path()) > len(modPath) && call.Fn.Pkg().Path()[:len(modPath)+1] == modPath+"/") {
+			ren := map[string]string{}
+			for i, p := range call.SFn.Params {
+				if i < len(call.Args) {
+					ren[p.Name()] = call.Args[i].String()
+				}
+			}
+			n := 0
+			for _, b := range call.SFn.Blocks {
+				for _, in := range b.Instrs {
+					rt, ok := in.(*ssa.Return)
+					if !ok || idx >= len(rt.Results) {
+						continue
+					}
+					for _, sub := range c10ValueLeaves(Desc(rt.Results[idx]), depth+1) {
+						inner := sub.Base
+						out = append(out, c10Leaf{E: sub.E, Base: func(s string) string {
+							s = inner(s)
+							if r, ok := ren[s]; ok {
+								return r
+							}
+							return s
+						}})
+						n++
+					}
+				}
+			}
+			if n > 0 {
+				continue
+			}
+		}
+		out = append(out, c10Leaf{E: l, Base: id})
+	}
+	return out
+}
